@@ -373,6 +373,8 @@ pub fn compute_round<F: RawFloat>(float: F) -> ExtendedFloat80 {
 /// set.
 #[inline]
 pub fn compute_nearest_shorter<F: RawFloat>(float: F) -> ExtendedFloat80 {
+    #[cfg(lexical_verif)]
+    lexical_util::verif::set_write_tier(lexical_util::verif::WRITE_DRAGONBOX_SHORTER);
     // Compute `k` and `beta`.
     let exponent = float.exponent();
     let minus_k = floor_log10_pow2_minus_log10_4_over_3(exponent);
@@ -441,6 +443,8 @@ pub fn compute_nearest_shorter<F: RawFloat>(float: F) -> ExtendedFloat80 {
 /// digits.
 #[allow(clippy::comparison_chain)] // reason="logical approach for algorithm"
 pub fn compute_nearest_normal<F: RawFloat>(float: F) -> ExtendedFloat80 {
+    #[cfg(lexical_verif)]
+    lexical_util::verif::set_write_tier(lexical_util::verif::WRITE_DRAGONBOX_NORMAL);
     let mantissa = float.mantissa().as_u64();
     let exponent = float.exponent();
     let is_even = mantissa % 2 == 0;
